@@ -265,7 +265,15 @@ func VerifyFunc(prog *Program, db *ContractDB, fn *ssa.Function, ct *Contract, c
 		if r := recover(); r != nil {
 			switch e := r.(type) {
 			case specErr:
-				res.Errors = append(res.Errors, "contract error: "+e.msg)
+				if strings.HasPrefix(e.msg, "unknown identifier ") && ct != nil {
+					// a clause names a local variable the function no longer has (the code was
+					// restructured under the contract): like a missing loop or a call anchor that is
+					// never reached this is a failed structural obligation, not an engine error
+					x.obls = append(x.obls, &Obligation{Name: fmt.Sprintf("%s/anchor:ident %s", res.Label, strings.Trim(strings.TrimPrefix(e.msg, "unknown identifier "), "\"")), Func: res.Label, Kind: "anchor",
+						Goal: x.b.False(), Bank: x.b, Info: "the contract names a variable the function does not have: " + e.msg, Property: propsOf(ct)})
+				} else {
+					res.Errors = append(res.Errors, "contract error: "+e.msg)
+				}
 			case unsupportedErr:
 				res.Errors = append(res.Errors, e.Error())
 			default:
@@ -434,6 +442,10 @@ func (x *Exec) groundAxioms(seen map[*Term]bool) []*Term {
 	sort.Slice(ts, func(i, j int) bool { return ts[i].id < ts[j].id })
 	var out []*Term
 	var globs []*Term
+	// byte-range facts of instantiated heap cells are only needed where the xor axioms of the spec
+	// library (guarded by the operand range) are in play; elsewhere they only cost solver time, so a
+	// contract asks for them with the clause "cellranges"
+	usesXor := x.contract != nil && x.contract.CellRanges
 	tagOf := map[string]int64{}
 	tagID := func(name string) *Term {
 		id, ok := tagOf[name]
@@ -479,7 +491,7 @@ func (x *Exec) groundAxioms(seen map[*Term]bool) []*Term {
 			if lo, _ := b.Bounds(t); lo != nil {
 				break
 			}
-			if hi := unsignedHeapCellMax(t); hi != nil {
+			if hi := unsignedHeapCellMax(t); hi != nil && usesXor {
 				// a ground cell of an unsigned element heap that was produced by instantiating a
 				// quantified clause (reads under a bound variable carry no range fact of their own)
 				out = append(out, b.mk("<=", SBool, "", nil, b.Int(0), t))
